@@ -34,8 +34,52 @@ def run(prog, chk):
     own_attributes_outside_scope(prog, chk)
     pops_follow_pushes(prog, chk)
     scan_continues_past_undefined(prog, chk)
+    reuse_scope_encloses_instance(prog, chk)
+    reuse_reads_evaluated_element(prog, chk)
+    from props import strops
+    strops.check_for(prog, chk, "C15")  # A14.str-ops: where a `$name` ends is a reviewed inventory of searches and character classes
     from props import C18
     C18.template_source(prog, chk)  # a <reuse> copies the element as written: what $k means inside the copy is decided at the reuse site, not at the definition
+
+
+def reuse_scope_encloses_instance(prog, chk):
+    """the variables a <reuse> binds are in scope for the whole processing of its instance - leaf or container: between
+    push_element and the call that processes the instance (process_events on the re-wrapped events / generate_events on
+    the instance element) no path passes a pop_element"""
+    from props import C17
+
+    ru = prog.body("<svgdx::reuse::ReuseElement as svgdx::transform::EventGen>::generate_events")
+    chk.touch(ru)
+    pushes = [bb for (bb, t, c) in ru.call_sites(R.path_is(PUSH))]
+    pops = {bb for (bb, t, c) in ru.call_sites(R.path_is(POP))}
+    sinks = [(bb, t, c) for (bb, t, c) in ru.call_sites(lambda c: c.path == "svgdx::transform::process_events" or (c.path.endswith("generate_events") and "SvgElement" in c.inst))]
+    chk.floor("A5.scope-encloses", len(sinks), 2, "call that processes the reuse instance")
+    if not pushes:
+        chk.anchor_missing("A5.scope-encloses", "ReuseElement::generate_events: push_element not found")
+        return
+    for (sb, t, c) in sinks:
+        # is there a path push -> pop -> sink ?
+        early = [p_ for p_ in pops if p_ in ru.reach([ru.term(pushes[0])["t"]], avoid={sb}) and sb in ru.reach([ru.term(p_)["t"]] if ru.term(p_).get("t") is not None else [])]
+        chk.ob(not early, "A5.scope-encloses", f"ReuseElement:{c.path.split('::')[-1]}", ru.where(sb, t.get("line")), "the reuse scope is still pushed when the instance is processed", f"the scope of the <reuse> can already be popped ({', '.join(ru.where(x) for x in early)}) when the instance is processed by {c.path.split('::')[-1]}(): what the instance looks up late (a second resolution pass of `$$sel`, a nested <reuse> that hands a binding on, a <var> target) no longer sees the reuse element's bindings - or leaks its own into the enclosing scope")
+
+
+def reuse_reads_evaluated_element(prog, chk):
+    """everything a <reuse> reads of itself (href, id, style, overrides ...) is read from the *evaluated* copy of the
+    element: `self.0` is only cloned"""
+    ru = prog.body("<svgdx::reuse::ReuseElement as svgdx::transform::EventGen>::generate_events")
+    chk.touch(ru)
+    raw = []
+    n = 0
+    for (bb, t, c) in ru.call_sites(lambda c: c.path.startswith("svgdx::element::SvgElement::") or c.decl_path == "std::clone::Clone::clone"):
+        if not t["args"]:
+            continue
+        o = R.origin(ru, t["args"][0], carriers={})
+        if (o[0] == "arg" and o[1] == 1) or (o[0] == "field" and o[1][0] == 1 and [str(z) for z in o[1][1] if z != "*"] == [".0"]):
+            n += 1
+            if c.decl_path != "std::clone::Clone::clone":
+                raw.append((bb, t, c))
+    chk.floor("A10.reuse-evaluated-attrs:self", n, 1, "use of self.0 in ReuseElement::generate_events")
+    chk.ob(not raw, "A10.reuse-evaluated-attrs", "ReuseElement:self-only-cloned", ru.where(), "the unevaluated element (self.0) is only cloned; every attribute is read from the evaluated copy", f"ReuseElement::generate_events reads the unevaluated element directly ({', '.join(c.path.split('::')[-1] + ' at ' + ru.where(bb, t.get('line')) for bb, t, c in raw)}): an attribute written with a variable or expression (href=\"#shape$i\") is used as written instead of as evaluated")
 
 
 def scan_continues_past_undefined(prog, chk):
